@@ -157,8 +157,8 @@ def case_to_coq(c):
         inp = "(InOtlp %s)" % coq_list([ores(r) for r in c["otlp"]])
     else:
         inp = "(InZipkin %s %s)" % ("true" if c["fmt"] == "znd" else "false", coq_list([jv(e) for e in c["zip"]]))
-    return "(Build_case %d %s\n     %s %s\n     %s\n     %s)" % (
-        c["id"], inp, "true" if c["err"] else "false",
+    return "(Build_case %d %s (Build_delivery %d %d)\n     %s %s\n     %s\n     %s)" % (
+        c["id"], inp, c.get("seg_mode", 0), c.get("seg_seed", 0), "true" if c["err"] else "false",
         coq_list([trow(r, i) for i, r in enumerate(c["spans"] or [])]),
         arows(c["tags"]),
         coq_list([rspan(r) for r in (c["read"] or [])]))
@@ -207,6 +207,28 @@ QUIRKS = {0: "OTLP list-valued attributes yield no tag rows (fixed defect otlp-l
           2: "NDJSON framing keeps decoder state across lines / stores no payload (fixed defect zipkin-ndjson-state)",
           3: "read path prefers peer.service and rewrites service.name (fixed defect otlp-read-peer-service)",
           4: "read path takes a Zipkin parent only from a 16-digit payload parentId (fixed defect zipkin-short-parent-id)"}
+
+
+SEG = {0: "one Read over the whole body", 1: "one byte per Read", 2: "1..1500 bytes per Read", 3: "1..64 bytes per Read"}
+
+
+def delivery_of(ck, c):
+    """how the body of this request was delivered, and the body itself (re-rendered by the harness) when it is not huge"""
+    d = {"mode": SEG.get(c.get("seg_mode", 0)), "seg_seed": c.get("seg_seed"), "body_len": c.get("body_len"),
+         "read_calls": c.get("reads"), "first_segment_sizes": c.get("seg_head")}
+    try:
+        inp = os.path.join(ck.work, "body_in.jsonl")
+        outp = os.path.join(ck.work, "body_out.jsonl")
+        open(inp, "w").write(json.dumps({k: c.get(k) for k in ("id", "class", "fmt", "otlp", "zip", "sep", "trail_nl", "seg_mode", "seg_seed")}) + "\n")
+        rc, _ = ck.go_run("spans", ["--cases", inp, "--out", outp], env_extra={"SPANS_DUMP_BODY": "1"})
+        if rc == 0:
+            o = json.loads(open(outp).readline())
+            if o.get("body_b64") and len(o["body_b64"]) < 600000:
+                d["body_base64"] = o["body_b64"]
+                d["all_segment_sizes"] = o.get("seg_all")
+    except Exception as ex:   # the replay stays usable without the rendered body
+        d["body_note"] = "body not rendered: %s" % ex
+    return d
 
 
 def size_of(c):
@@ -261,8 +283,8 @@ def run_spans(ck):
     tot = {"M": [], "V": [], "R": []}
     # Coq spends ~0.1 s per request elaborating the literal: shards are evaluated by parallel coqc processes
     shard = 100
-    heavy = [c for c in cases if size_of(c) > 200000]          # the > 1 MiB request: a shard of its own
-    light = [c for c in cases if size_of(c) <= 200000]
+    heavy = [c for c in cases if size_of(c) > 40000]           # the > 64 KiB / > 1 MiB requests: a shard each
+    light = [c for c in cases if size_of(c) <= 40000]
     groups = [[c] for c in heavy] + [light[k:k + shard] for k in range(0, len(light), shard)]
     texts = [(k, cases_file(g)) for k, g in enumerate(groups)]
     from concurrent.futures import ThreadPoolExecutor
@@ -283,7 +305,7 @@ def run_spans(ck):
         worst = min((byid[i] for i in viol), key=size_of)
         diag = sorted({QUIRKS[q] for (i, q) in tot["R"] if i == worst["id"]})
         ck.violation({"property": PID, "kind": "a stored span does not read back as the span that was pushed",
-                      "case": worst, "diagnosis": diag,
+                      "case": worst, "diagnosis": diag, "delivery": delivery_of(ck, worst),
                       "explanation": "spec_ok (model/Spans.v) rejects these observations of the real write/read path: "
                                      "rows_ok (one trace row per span with its ids/times/name/service/payload), tags_ok (tag rows = flattened attributes "
                                      "with the span's ids and times) or reads_ok (OutputQuery returns the pushed span) is false",
@@ -292,7 +314,7 @@ def run_spans(ck):
         worst = min((byid[i] for i in mism), key=size_of)
         diag = sorted({QUIRKS[q] for (i, q) in tot["R"] if i == worst["id"]})
         ck.violation({"property": PID, "kind": "model/implementation disagree; the property's oracle still accepts the observations",
-                      "case": worst, "diagnosis": diag, "broken": "correspondence Spans.decode / Spans.read_row vs the Go code"}, no_input=True)
+                      "case": worst, "diagnosis": diag, "delivery": delivery_of(ck, worst), "broken": "correspondence Spans.decode / Spans.read_row vs the Go code"}, no_input=True)
     # one OutputQuery over all rows of a request returns as many spans as the rows decoded one by one
     short = [c for c in cases if not c["err"] and c.get("read_all", -1) >= 0 and c["read_all"] != sum(1 for r in c["read"] if r.get("ok"))
              and all(r.get("ok") for r in c["read"])]
@@ -314,9 +336,13 @@ def run_spans(ck):
     ck.coverage["rule"] += ("span requests: OTLP protobuf (1-3 resources x 0-2 scopes x 0-3 spans, attributes of every AnyValue kind nested to depth %s, "
                             "repeated and special keys, zero/max ids, end<start and >2^63 times, missing resource, missing value), Zipkin JSON array and NDJSON "
                             "(1-4 spans, shuffled fields, 1-37 digit ids, string/number times incl. the *1000 overflow edge, endpoints, string and non-string "
-                            "tags, repeated fields, one malformed field in 20%%); each request goes through the real parser, every produced row through the real "
+                            "tags, repeated fields, one malformed field in 20%%), six Zipkin requests of 40-320 spans with bodies of 74-180 kB (beyond the decoders' 64 KiB "
+                            "read buffers) in both framings; every body is delivered to the parser either in one piece (35%%), byte by byte (10%%), in 1..1500-byte "
+                            "(40%%) or 1..64-byte (15%%) Reads; each request goes through the real parser, every produced row through the real "
                             "OutputQuery; non-trivial = accepted with >= 2 spans or >= 4 tag rows; distinct by content. " % env["SPANS_DEPTH"])
     ck.extra["input_distribution"] = hist
+    ck.extra["delivery_modes"] = {SEG[k]: sum(1 for c in cases if c.get("seg_mode", 0) == k) for k in SEG}
+    ck.extra["bodies_over_64KiB"] = sum(1 for c in cases if c.get("body_len", 0) > 65536)
     ck.extra["accepted_requests"] = sum(1 for c in cases if not c["err"])
     ck.extra["rows_read_back"] = sum(len(c["read"] or []) for c in cases)
     ck.add_samples([{"fmt": c["fmt"], "input": c["otlp"] or c["zip"], "rows": c["spans"], "tags": c["tags"][:6], "read": c["read"]}
@@ -335,7 +361,7 @@ def run_replay(ck):
         return
     inp = os.path.join(ck.work, "replay_in.jsonl")
     outp = os.path.join(ck.work, "replay_out.jsonl")
-    open(inp, "w").write(json.dumps({k: c.get(k) for k in ("id", "class", "fmt", "otlp", "zip", "sep", "trail_nl")}) + "\n")
+    open(inp, "w").write(json.dumps({k: c.get(k) for k in ("id", "class", "fmt", "otlp", "zip", "sep", "trail_nl", "seg_mode", "seg_seed")}) + "\n")
     rc, out = ck.go_run("spans", ["--cases", inp, "--out", outp])
     if rc != 0:
         ck.obligation("harness spans ran the replay", False, out[-1500:])
